@@ -31,6 +31,10 @@ inductive FVal
 /-- the first field of a nested object (the one ParseOpen sees) -/
 inductive FFirst
   | kv (key : Scal) (g1 : Bytes) (op : Op) (v : FVal)
+  /-- the object starts with a header field (`{ a = rgb { 1 } … }`) or a parameter block
+  (`{ [[p] v] … }`); `f` holds that field (with the blanks in front of it) and may go on with
+  further fields -/
+  | flds (f : FFields)
 inductive FFields
   | nil
   | cons (g0 : Bytes) (key : Scal) (g1 : Bytes) (op : Op) (v : FVal) (rest : FFields)
@@ -75,6 +79,7 @@ def finner : FVal → Bytes
     g0 ++ (frenderFirst first ++ (frenderF rest ++ (gm ++ (m0.text ++ (frenderI items ++ (gc ++ [125]))))))
 def frenderFirst : FFirst → Bytes
   | .kv k g1 o v => k.text ++ (g1 ++ (o.text ++ frenderV v))
+  | .flds f => frenderF f
 def frenderF : FFields → Bytes
   | .nil => []
   | .cons g0 k g1 o v rest => g0 ++ (k.text ++ (g1 ++ (o.text ++ (frenderV v ++ frenderF rest))))
@@ -108,9 +113,19 @@ def FVal.isContainer : FVal → Prop
 def FVal.gap : FVal → Bytes
   | .scal g _ | .empty g _ | .obj g .. | .arrS g .. | .arrC g .. | .ghostIn g .. | .mixed g .. => g
 
+/-- a field list that starts with a header field or a parameter block -/
+def FFields.startsSpecial : FFields → Prop
+  | .consHdr .. | .paramVal .. | .paramObj .. => True
+  | _ => False
+
+def FFields.hdrLed : FFields → Prop
+  | .consHdr .. => True
+  | _ => False
+
 /-- the first field starts with a scalar key (not with a parameter block) -/
 def FFirst.scalarLed : FFirst → Prop
   | .kv .. => True
+  | .flds f => f.hdrLed
 
 /-- a container whose first token behind `{` is a scalar: as an element of a mixed container's
 array part it keeps the mixed mode alive (ParseOpen flags the enclosing container).  An empty
@@ -150,6 +165,7 @@ def FValidV : FVal → Bytes → Prop
 def FValidFirst : FFirst → Bytes → Prop
   | .kv k g1 o v, after =>
     Blank g1 ∧ k.ValidX ∧ (k.quoted = false → StartsBoundary (g1 ++ o.text)) ∧ FValidV v after
+  | .flds f, after => f.startsSpecial ∧ FValidF f after
 def FValidF : FFields → Bytes → Prop
   | .nil, _ => True
   | .cons g0 k g1 o v rest, after =>
@@ -199,6 +215,7 @@ def fcntV : FVal → Nat
   | .mixed _ _ first rest _ _ items _ => 2 + fcntFirst first + fcntF rest + 2 + fcntI items
 def fcntFirst : FFirst → Nat
   | .kv _ _ o v => 1 + o.toks.length + fcntV v
+  | .flds f => fcntF f
 def fcntF : FFields → Nat
   | .nil => 0
   | .cons _ _ _ o v rest => (1 + o.toks.length + fcntV v) + fcntF rest
@@ -250,6 +267,7 @@ def ftapeV : FVal → Nat → Bytes → List Tok
 def ftapeFirst : FFirst → Nat → Bytes → List Tok
   | .kv k g1 o v, base, after =>
     [k.tok (g1 ++ (o.text ++ (frenderV v ++ after)))] ++ o.toks ++ ftapeV v (base + 1 + o.toks.length) after
+  | .flds f, base, after => ftapeF f base after
 def ftapeF : FFields → Nat → Bytes → List Tok
   | .nil, _, _ => []
   | .cons _ k g1 o v rest, base, after =>
@@ -306,6 +324,7 @@ def fstepsV : FVal → Nat
 /-- iterations of the first field, from ParseOpen to Key -/
 def fstepsFirst : FFirst → Nat
   | .kv _ _ _ v => 2 + fstepsV v
+  | .flds f => fstepsF f
 def fstepsF : FFields → Nat
   | .nil => 0
   | .cons _ _ _ _ v rest => 2 + fstepsV v + fstepsF rest
